@@ -9,7 +9,8 @@ from .tlc import SPEC_DIR, JAR, CM, scratch_root, runcfg_module
 
 DEFAULT_RUNCFG = {'Wins': {(97, 36, 91)}, 'MaxD': 1, 'OpSel': {'concat'}, 'PoolSel': {'class'},
                   'Quants': {('Optional', 0, 1, True)}, 'Names': {'n'}, 'Strs': {(97,)},
-                  'CArgs': {('c', 97)}, 'MaxFrom': 1, 'CWin': (97, 98), 'CSel': {'alg'}}
+                  'CArgs': {('c', 97)}, 'MaxFrom': 1, 'CWin': (97, 98), 'CSel': {'alg'},
+                  'Handles': {1}, 'ObsGroups': {'match'}, 'MaxLen': 2, 'MaxT': 2, 'NG': 1}
 
 
 def setup():
@@ -22,7 +23,7 @@ def setup():
             with open(os.path.join(sdir, 'RunCfg.tla'), 'w') as fh:
                 fh.write(runcfg_module(DEFAULT_RUNCFG, extends=['Integers']))
         for f in sorted(glob.glob(os.path.join(sdir, '*.tla'))):
-            if os.path.basename(f).startswith('Trace') or os.path.basename(f) in SKIP:
+            if os.path.basename(f) in SKIP:
                 continue
             pr = subprocess.run(['java', '-cp', JAR + ':' + CM, 'tla2sany.SANY', os.path.basename(f)],
                                 cwd=sdir, capture_output=True, text=True)
